@@ -355,6 +355,8 @@ def parseOp (field : String) (xs : List Q) : Option (Op Q) :=
   | "cde" => do let (b, _) ← takeBool xs; pure (.setCdE b)
   | "cds" => do let (b, _) ← takeBool xs; pure (.setCdS b)
   | "cdt" => do let (b, _) ← takeBool xs; pure (.setCdT b)
+  | "x" => do let (l, _) ← takeList xs; pure (.setX l)
+  | "d" => do let (l, _) ← takeProfile xs; pure (.setD l)
   | _ => none
 
 /-- one energy term of the current object; the profile is the stored one (`0`) or given (`1 n x… d…`);
@@ -383,26 +385,126 @@ def evalTerm (o : Obj Q) (term : String) (xs : List Q) : Option String := do
           (fun b => if b then (1 : Q) else 0) ++ [(o.x.length : Q)] ++ o.x ++ flatV3 o.d))
   | _ => none
 
-def step (st : Option (Obj Q)) (toks : List String) : Option (Obj Q) × String :=
+/-- a METHOD CALL `obj.<term>_energy(x=…, disregistry=…)` with any subset of the two optional arguments
+    (`hx [n x…] hd [n d…]`), resolved by the model object (`Obj.call`); `elastic` is followed by the table of
+    logs (keyed `k·Δx` of the effective grid), `misfit` by `A1 A2 c1 c2 n f00 f01 f10 f11 …` (the interpolant
+    values the implementation used, one row per row of the effective disregistry), `dens` by the `cdiff` flag. -/
+def evalCall (o : Obj Q) (term : String) (xs : List Q) : Option String := do
+  let (xo, r) ← takeOpt takeList xs
+  let (dO, r) ← takeOpt takeProfile r
+  let a := o.args xo dO
+  let noLg : Q → Q := fun _ => 0
+  let noGam : V3 Q → Q := fun _ => 0
+  match term with
+  | "long" => pure (showRat (o.call noLg noGam .longrange xo dO))
+  | "stress" => pure (showRat (o.call noLg noGam .stress xo dO))
+  | "surface" => pure (showRat (o.call noLg noGam .surface xo dO))
+  | "nonlocal" => pure (showRat (o.call noLg noGam .nonlocal xo dO))
+  | "elastic" =>
+      let dx := gridStep a.1
+      let nρ := (disldensity o.s.cdiffelastic a.1 a.2).length
+      let (logs, _) ← takeN nρ r
+      let keys := (List.range nρ).map (fun k => ((k + 1 : Nat) : Q) * dx)
+      pure (showRat (o.call (tableFn keys logs) noGam .elastic xo dO))
+  | "misfit" =>
+      let (A1, r) ← takeV3 r
+      let (A2, r) ← takeV3 r
+      let (c1, r) ← take1 r
+      let (c2, r) ← take1 r
+      let (n, r) ← takeNat r
+      let (rows, _) ← takeN (4 * n) r
+      if n ≠ a.2.length then pure (err "value") else
+      let rws := chunk 4 n rows
+      let keys : List (V3 Q) := a.2.map (fun δ => M3.vecMul ⟨δ.x, 0, δ.z⟩ o.s.T)
+      let gam : V3 Q → Q := fun p =>
+        match (keys.zip rws).lookup p with
+        | some w =>
+          let q := posToA12 A1 A2 p
+          let a1w := wrap fl c1 q.1
+          let a2w := wrap fl c2 q.2
+          E fl (quadFn a1w a2w (w.getD 0 0) (w.getD 1 0) (w.getD 2 0) (w.getD 3 0)) c1 c2 q.1 q.2
+        | none => 0
+      pure (showRat (o.call noLg gam .misfit xo dO))
+  | "dens" =>
+      let (cd, _) ← takeBool r
+      let (nx, ρ) := o.density xo dO cd
+      pure (showRats ([(nx.length : Q)] ++ nx ++ flatV3 ρ))
+  | _ => none
+
+/-! #### the GammaSurface object (stateful part of the driver) -/
+
+/-- `box(9) a1vect(3) a2vect(3) n a1… a2… e… hasdelta [delta…]`. -/
+def takeRecord (xs : List Q) : Option (GsfRecord Q × List Q) := do
+  let (B, r) ← takeM3 xs
+  let (v1, r) ← takeV3 r
+  let (v2, r) ← takeV3 r
+  let (n, r) ← takeNat r
+  let (a1, r) ← takeN n r
+  let (a2, r) ← takeN n r
+  let (e, r) ← takeN n r
+  let (dl, r) ← takeOpt (takeN n) r
+  pure (⟨B, v1, v2, a1, a2, e, dl⟩, r)
+
+def showRecordData (g : GsfRecord Q) : String :=
+  showRats ([(g.a1.length : Q)] ++ g.a1 ++ g.a2 ++ g.e ++ (match g.delta with
+    | some d => (1 : Q) :: d
+    | none => [0]))
+
+def ratToks (l : List Q) : List String := l.map showRat
+
+structure St where
+  o : Option (Obj Q) := none
+  g : Option (GObj Q) := none
+
+def gstep (g : GObj Q) (op : String) (rest : List String) : String :=
+  let A := ratToks (g.A1.toList ++ g.A2.toList)
+  match op with
+  | "gcart" => showRats (g.A1.toList ++ g.A2.toList)
+  | "gdata" => showRecordData g.r
+  | "gmodel" => done do
+      let xs ← parseRats? rest
+      let (ue, r) ← take1 xs
+      let (ul, _) ← take1 r
+      pure (showRecordData (g.model ue ul))
+  | "gfit" => done do
+      let xs ← parseRats? rest
+      let (which, _) ← takeBool xs
+      match (if which then g.fitD? else g.fitE?), g.cushions? with
+      | some N, some (c1, c2) =>
+        pure (showRats ([c1, c2, (N.length : Q)] ++ N.map (·.a1) ++ N.map (·.a2) ++ N.map (·.e)))
+      | _, _ => pure (err "value")
+  | "ga2p" => handle ("a2p" :: A ++ rest)
+  | "gp2a" => handle ("p2a" :: A ++ rest)
+  | "gq2apos" => handle ("q2apos" :: A ++ rest)
+  | "gq2avec" => handle ("q2avec" :: A ++ rest)
+  | "gp2xy" | "gxy2p" | "gq2axy" =>
+      let base := (op.drop 1).toString
+      match rest with
+      | "none" :: r => handle (base :: "none" :: A ++ r)
+      | "some" :: x :: y :: z :: r => handle (base :: "some" :: x :: y :: z :: A ++ r)
+      | _ => err "format"
+  | _ => err "op"
+
+def step (st : St) (toks : List String) : St × String :=
   match toks with
   | "onew" :: rest =>
       match (parseRats? rest).bind takeSettings with
-      | some (s, _) => (some ⟨s, [], []⟩, "ok")
+      | some (s, _) => ({ st with o := some ⟨s, [], []⟩ }, "ok")
       | none => (st, err "format")
   | "oset" :: field :: rest =>
-      match st, (parseRats? rest).bind (parseOp field) with
-      | some o, some op => (some (o.apply op), "ok")
+      match st.o, (parseRats? rest).bind (parseOp field) with
+      | some o, some op => ({ st with o := some (o.apply op) }, "ok")
       | none, _ => (st, err "op")
       | _, none => (st, err "format")
   | "osolve" :: rest =>
-      match st, (parseRats? rest).bind (fun xs => do
+      match st.o, (parseRats? rest).bind (fun xs => do
           let (kw, r) ← takeKw xs
           let (res, _) ← takeList r
           pure (kw, res)) with
       | some o, some (kw, res) =>
           if res.length % 2 ≠ 0 then (st, err "value") else
           let o' := o.apply (.solve kw res)
-          (some o', showRats (flatV3 o'.d))
+          ({ st with o := some o' }, showRats (flatV3 o'.d))
       | none, _ => (st, err "op")
       | _, none => (st, err "format")
   | "oload" :: rest =>
@@ -411,17 +513,48 @@ def step (st : Option (Obj Q)) (toks : List String) : Option (Obj Q) × String :
           let (x, r) ← takeList r
           let (d, _) ← takeV3s x.length r
           pure (⟨s, x, d⟩ : Obj Q)) with
-      | some o' => (((st.getD o').apply (.load o')), "ok")
+      | some o' => ({ st with o := some ((st.o.getD o').apply (.load o')) }, "ok")
       | none => (st, err "format")
   | "oeval" :: term :: rest =>
-      match st, parseRats? rest with
+      match st.o, parseRats? rest with
       | some o, some xs => (st, (evalTerm o term xs).getD (err "format"))
       | none, _ => (st, err "op")
       | _, none => (st, err "format")
+  | "ocall" :: term :: rest =>
+      match st.o, parseRats? rest with
+      | some o, some xs => (st, (evalCall o term xs).getD (err "format"))
+      | none, _ => (st, err "op")
+      | _, none => (st, err "format")
+  | "gset" :: rest =>
+      match (parseRats? rest).bind takeRecord with
+      | some (r, _) => ({ st with g := some ((st.g.getD ⟨r⟩).apply (.set r)) }, "ok")
+      | none => (st, err "format")
+  | "gload" :: rest =>
+      match (parseRats? rest).bind (fun xs => do
+          let (ue, r) ← take1 xs
+          let (ul, r) ← take1 r
+          let (m, _) ← takeRecord r
+          pure (ue, ul, m)) with
+      | some (ue, ul, m) => ({ st with g := some ((st.g.getD ⟨m⟩).apply (.loadModel ue ul m)) }, "ok")
+      | none => (st, err "format")
+  | "v4to3" :: rest => (st, done do
+      let xs ← parseRats? rest
+      match xs with
+      | [u, v, t, w] =>
+        match vec4to3? u v t w with
+        | some r => pure (showRats r.toList)
+        | none => pure (err "value")
+      | _ => none)
+  | op :: rest =>
+      if op.startsWith "g" then
+        match st.g with
+        | some g => (st, gstep g op rest)
+        | none => (st, err "op")
+      else (st, handle toks)
   | _ => (st, handle toks)
 
 end C18Drv
 
 def handleC18 (toks : List String) : String := C18Drv.handle toks
 
-def main : IO Unit := runDriverS C18Drv.step none
+def main : IO Unit := runDriverS C18Drv.step {}
